@@ -499,9 +499,6 @@ func c06Gen(r *rand.Rand, tier string) []string {
 		pools := 1 + i%3
 		buf := []int{0, 4096, 65536}[r.Intn(3)]
 		if pools > 1 && !stdoutWholeLines {
-			// a buffer that fills spills in the middle of a line, another pool's flush then lands inside that line (defect
-			// reported in round 6, fixes/C06-phout-whole-lines.diff): until the repair is in /repo only the default
-			// buffer (8 MB, never full in these runs) is used with several pools
 			buf = 0
 		}
 		out = append(out, fmt.Sprintf("kind=stdout pools=%d g=%d k=%d q=64 buf=%d jit=%d tail=%d",
@@ -621,8 +618,18 @@ func c06Gen(r *rand.Rand, tier string) []string {
 			if i%2 == 1 {
 				res = " res=json"
 			}
-			out = append(out, fmt.Sprintf("kind=proc sig=FAULT at=%d rps=%d procs=%d%s", 250+r.Intn(700), []int{100, 200, 400}[r.Intn(3)], 1-i%2, res))
+			// (round 6) when nobody cancels the healthy pool the process leaves through its 3 s await timeout without the
+			// final flush: what is lost is what was reported since the last periodic flush (phout: every full second of
+			// the run) — the instant is chosen so that this tail is long (the exit comes 3 s after the failure)
+			at := 600 + r.Intn(250) + 1000*r.Intn(2)
+			out = append(out, fmt.Sprintf("kind=proc sig=FAULT at=%d rps=%d procs=%d%s", at, []int{100, 200, 400}[r.Intn(3)], 1-i%2, res))
 		}
+		// (round 6) the same over jsonlines with a flush interval longer than the run: nothing reaches the file before the
+		// aggregator's final flush, so an exit without it loses everything
+		out = append(out, fmt.Sprintf("kind=proc sig=FAULT at=%d rps=%d procs=%d res=json fl=20000", 300+r.Intn(700), []int{100, 200}[r.Intn(2)], r.Intn(2)))
+		// (round 6) the result stream is the standard output: one pool stopped by a signal, two pools of different length
+		out = append(out, fmt.Sprintf("kind=proc sig=%s at=%d rps=%d procs=%d res=stdout", []string{"TERM", "INT"}[r.Intn(2)], 300+r.Intn(900), []int{100, 200}[r.Intn(2)], r.Intn(2)))
+		out = append(out, fmt.Sprintf("kind=proc sig=NONE at=%d rps=%d procs=%d res=stdout2", 600+r.Intn(800), []int{100, 200}[r.Intn(2)], r.Intn(2)))
 		for i := 0; i < nNone; i++ {
 			res := ""
 			if r.Intn(2) == 1 {
@@ -634,8 +641,8 @@ func c06Gen(r *rand.Rand, tier string) []string {
 	return out
 }
 
-// stdoutWholeLines: is fixes/C06-phout-whole-lines.diff applied to the tree under test (set it to true when it is)
-const stdoutWholeLines = false
+// stdoutWholeLines: fixes/C06-phout-whole-lines.diff is in /repo (89739df): several pools with small buffers are generated
+const stdoutWholeLines = true
 
 // kind=proc measures a real process against wall-clock margins: it runs alone; all other kinds run in parallel
 var procExcl sync.RWMutex
